@@ -69,6 +69,7 @@ def parseEnv (j : Json) : Env :=
   let sub := (jA (jF j "sub")).map jN
   let names := (jA (jF j "name")).map jN
   let bases := (jA (jF j "baseName")).map jOptN
+  let mros := (jA (jF j "mroNames")).map fun r => (jL r).map jN
   let ctx := (jA (jF j "ctx")).map fun p => (jN (jAt p 0), jN (jAt p 1))
   let metaA := (jA (jF j "meta")).map jN
   let fields := (jA (jF j "fields")).map fun f => if jIsNull f then (Option.none : Option (List Nat)) else some ((jL f).map jN)
@@ -78,6 +79,7 @@ def parseEnv (j : Json) : Env :=
   { sub := fun a b => a == b || (sub[a]?.getD 0).testBit b
     name := fun c => names[c]?.getD 0
     baseName := fun c => (bases[c]?).getD Option.none
+    mroNames := fun c => (mros[c]?).getD []
     ctx := fun n => (ctx.find? (·.1 == n)).map (·.2)
     fieldNames := fun c => (fields[c]?).getD Option.none
     litCls := fun l => match l with
